@@ -135,7 +135,8 @@ def build(api):
 
 
 def has_fail(beh):
-    return any((s.get("arg") or {}).get("fail") for s in beh)
+    """needs the recording kind: a failing constructor or the second managed element type"""
+    return any((s.get("arg") or {}).get("fail") or (s.get("arg") or {}).get("typ") == "elemB" for s in beh)
 
 
 def nontrivial(recs):
@@ -246,7 +247,9 @@ def gen_histories(ck, n, steps, kind, nh=4, nv=3):
             z = rng.choice([0, 0, 0, 1])
             if op == "new":
                 k = count(h)
-                beh.append({"a": op, "arg": {"h": h + 1, "data": fresh(k), "imm": rng.choice([0, 0, 0, 1]), "nc": rng.choice([0, 0, 0, 1])}})
+                t = rng.choice(["elem"] * 5 + ["raw", "plain"] + (["elemB"] if kind == "rec" else ["raw"]))
+                beh.append({"a": op, "arg": {"h": h + 1, "data": fresh(k) if t in ("elem", "elemB") else [9] * k,
+                                             "imm": rng.choice([0, 0, 0, 1]), "nc": rng.choice([0, 0, 0, 1]), "typ": t}})
                 if est[h] == 0:
                     est[h] = k
             elif op == "settyped":
@@ -278,10 +281,10 @@ def gen_histories(ck, n, steps, kind, nh=4, nv=3):
                 beh.append({"a": op, "arg": {"h": h + 1, "off": p, "n": k, "fail": fail(h, 0)}})
                 est[h] = max(est[h], p + k)
             elif op == "reserve":
-                t = rng.choice(["elem", "elem", "elem", "raw"])
+                t = rng.choice(["elem"] * 4 + ["raw", "plain"] + (["elemB"] if kind == "rec" else ["elem"]))
                 k = rng.choice([0, 1, near(est[h]), est[h], est[h] + 1, rng.choice(caps)])
                 beh.append({"a": op, "arg": {"h": h + 1, "len": k, "typ": t, "fail": fail(h, 0)}})
-                if t == "raw":
+                if t != "elem":
                     est[h] = 0
             elif op in ("clone", "drop"):
                 g = 0 if op == "drop" else rng.choice([x for x in range(nh) if x != h]) + 1
